@@ -55,6 +55,31 @@ def named(f, local, through=("Clone::clone", "Deref::deref", "into_iter", "IntoI
     return out
 
 
+def label_sources(f, local, through=("Clone::clone", "Deref::deref")):
+    """blocks of the anonymous_label() calls a label operand derives from"""
+    out = set()
+    seen = set()
+    work = [local]
+    defs = f.defs()
+    while work:
+        l = work.pop()
+        if l in seen:
+            continue
+        seen.add(l)
+        for kind, site in defs.get(l, []):
+            if kind == "stmt":
+                for p in site.src_places():
+                    work.append(p.local)
+            else:
+                if site.name == "anonymous_label":
+                    out.add(site.bb)
+                elif site.is_(*through):
+                    for a in site.args:
+                        if a.place is not None:
+                            work.append(a.place.local)
+    return out
+
+
 def err_edges(f):
     out = set()
     for c in f.calls:
@@ -74,6 +99,7 @@ def events(F, f, region=None):
             a = c.args[1]
             var = None
             labels = set()
+            lsrc = set()
             exit_reason = None
             if a.place is not None:
                 for k, s in f.backward_sources(a.place.local, through_calls=())[1]:
@@ -85,21 +111,24 @@ def events(F, f, region=None):
                             for o in s.operands():
                                 if o.place is not None:
                                     labels |= named(f, o.place.local)
+                                    lsrc |= label_sources(f, o.place.local)
                         if adt.endswith("ExitReason"):
                             exit_reason = s.rv[1].get("variant")
-            evs.append(Ev("emit", c, variant=var, labels=labels, exit_reason=exit_reason))
+            evs.append(Ev("emit", c, variant=var, labels=labels, lsrc=lsrc, exit_reason=exit_reason))
         elif c.name in COMPILE_FNS:
             a = c.args[1] if len(c.args) > 1 else None
             names = named(f, a.place.local) if a is not None and a.place is not None else set()
             evs.append(Ev("compile", c, names=names, fn=c.name))
         elif c.name == "define_label":
             a = c.args[1]
-            evs.append(Ev("label", c, labels=named(f, a.place.local) if a.place is not None else set()))
+            evs.append(Ev("label", c, labels=named(f, a.place.local) if a.place is not None else set(),
+                          lsrc=label_sources(f, a.place.local) if a.place is not None else set()))
         elif c.name == "anonymous_label":
             al = f.forward_aliases(c.dest.local)
-            evs.append(Ev("new", c, labels={f.local_name(l) for l in al if f.local_name(l)}))
+            evs.append(Ev("new", c, labels={f.local_name(l) for l in al if f.local_name(l)}, lsrc={c.bb}))
         elif c.name in ("compile_match_arm_epilogue",):
-            evs.append(Ev("epilogue", c, labels=named(f, c.args[1].place.local) if c.args[1].place is not None else set()))
+            evs.append(Ev("epilogue", c, labels=named(f, c.args[1].place.local) if c.args[1].place is not None else set(),
+                          lsrc=label_sources(f, c.args[1].place.local) if c.args[1].place is not None else set()))
     return evs
 
 
